@@ -1038,10 +1038,14 @@ fn emit_item(ctx: &mut Ctx, file: &str, name: &str, opts: &BTreeMap<String, Stri
         }
         fn visit_field_mut(&mut self, f: &mut syn::Field) {
             f.attrs.clear();
+            // R8: field visibility is widened to `pub` (contracts of pub fns must be able to name the fields)
+            f.vis = syn::parse_quote!(pub);
         }
         fn visit_variant_mut(&mut self, v: &mut syn::Variant) {
             v.attrs.clear();
-            syn::visit_mut::visit_variant_mut(self, v);
+            for f in v.fields.iter_mut() {
+                f.attrs.clear();
+            }
         }
     }
     Strip.visit_item_mut(&mut it);
